@@ -35,8 +35,8 @@ type sysgen struct {
 func systems() []sysgen {
 	npmVer := func(r *rand.Rand) string {
 		switch r.Intn(12) {
-		case 0:
-			return gen.Pick(r, "junk", "zzz", "not.a.version", "latest-ish", "Z", "1.0.0.0.0")
+		case 0, 3:
+			return gen.Pick(r, "junk", "zzz", "not.a.version", "latest-ish", "Z", "1.0.0.0.0", "nightly", "weekly")
 		case 1:
 			return "v" + gen.SemFull(r, false)
 		case 2:
@@ -210,7 +210,25 @@ func generate(sg sysgen, rng *rand.Rand) Case {
 					list[j].Tags = strings.Trim(strings.ReplaceAll(","+list[j].Tags+",", ",latest,", ","), ",")
 				}
 				list[k].Tags = strings.Trim("latest,"+list[k].Tags, ",")
-				return Case{Sys: sg.name, Req: ">=" + v.V, List: list}
+				// Requirements that admit the prerelease: some also admit later
+				// releases, some only prereleases of the same version (then
+				// whether the list has releases elsewhere decides the order).
+				base := strings.SplitN(v.V, "-", 2)[0]
+				req := gen.Pick(rng, ">="+v.V, ">="+v.V, "^"+v.V, "~"+v.V, "<="+v.V, ">="+base+"-0 <"+base, v.V+" || "+base+"-zz")
+				if rng.Intn(2) == 0 {
+					// A sibling prerelease of the same version.
+					sib := base + "-" + gen.Pick(rng, "zz", "0", "beta.9")
+					dup := false
+					for _, x := range list {
+						if x.V == sib {
+							dup = true
+						}
+					}
+					if !dup {
+						list = append(list, Ver{V: sib})
+					}
+				}
+				return Case{Sys: sg.name, Req: req, List: list}
 			}
 		}
 	}
@@ -326,6 +344,21 @@ func one(r *ev.Run, sg sysgen, c Case, rng *rand.Rand) {
 			return x
 		}()) {
 			r.Count("perm_differs_from_identity:"+sg.name, 1)
+		}
+		// resolve.SortVersions on this permutation: the whole list in the stated order.
+		{
+			sl := append([]resolve.Version(nil), l...)
+			resolve.SortVersions(sl)
+			full := model.Order(sg.sys, c.List, c.List)
+			fs := make([]string, len(full))
+			for i, v := range full {
+				fs[i] = v.V
+			}
+			r.Eval(1)
+			if g, w := names(sl), strings.Join(fs, " "); g != w && !reported {
+				reported = true
+				r.Violation("C12:"+sg.name+":SortVersions", fmt.Sprintf("%s: SortVersions(perm %v of %v) = [%s], expected [%s]", sg.name, perm, c.List, g, w), c)
+			}
 		}
 		got := resolve.MatchRequirement(q, l)
 		r.Eval(1)
